@@ -69,7 +69,7 @@ def run_cases(ctx, n, rational_share=0.7, with_sources=True):
         res.evaluations += 1
         res.traces += 1
         for s in steps:
-            res.count(s[0] + ":" + (s[1] if s[0] not in ("meas", "read") else ""))
+            res.count(s[0] + ":" + (s[1] if s[0] not in ("meas", "read", "poison") else ""))
             for ref in s[2:] if s[0] in ("un", "bin") else []:
                 if isinstance(ref, list):
                     res.count("operand:" + ref[0])
